@@ -1012,6 +1012,19 @@ def layout_case(universe, rnd, nops):
     return [1] + universe + g.out
 
 
+LAYOUT_RULE = ("engine world, layout profile: 8 component layouts (zero-sized with alignment 1 and 64, sizes 1..1024, alignments "
+               "1..64, with and without drop glue); scripts of 3..15 steps each followed by a layout probe (opcode 23): "
+               "spawn_batch / column batches / reserve with sizes at the capacity boundaries " + str(BOUNDARY) + ", runs of "
+               "despawns (swap-remove) and ordinary world operations; the probe compares every archetype's capacity with the "
+               "model's capacity shadow and checks, in the harness, that every column base is aligned, every non-zero-sized "
+               "non-empty column is exactly one live block of the tracking allocator of capacity*size bytes (distinct columns "
+               "distinct blocks), and every component reference of a column has the address base + size*row; all values are "
+               "compared with the model after every operation; components dropped at a misaligned address and allocator "
+               "contract breaches (dealloc/realloc with a layout other than the one allocated, double free) are flagged. "
+               "Mixed with " + CONT_RULE + " (builder arenas: get() references aligned, inside one live block, pairwise disjoint) "
+               "and " + WORLD_RULE)
+
+
 def gen_layout(quick_n, thorough_n):
     def gen(tier, seed, universe):
         rnd = random.Random(seed)
